@@ -2,7 +2,9 @@
 
 Score description (JSON-able dict):
   {"meter": name in METERS, "pickup": p (grid units, 0 = none),
-   "notes": [[id, kind ('n'|'g'), onset, dur, midi pitch, voice], ...]}    # times in grid units (= divisions)
+   "notes": [[id, kind ('n'|'g'), onset, dur, midi pitch, voice], ...],    # times in grid units
+   "factor": f (optional, default 1)}     # divisions per grid unit: the part is built with divisions per quarter
+                                          # = f x the meter's value and every time multiplied by f (same beats)
 The timeline starts at 0; a pickup measure [0, p) precedes the first full measure [p, p + mlen).
 Performance description: [[pid, midi pitch, onset_us, dur_us, velocity], ...]  (integer microseconds).
 Alignment: list of dicts exactly as partitura expects them.
@@ -25,24 +27,26 @@ NAT = {48: ("C", 3), 50: ("D", 3), 52: ("E", 3), 53: ("F", 3), 55: ("G", 3), 57:
 def part_spec(sc):
     m = METERS[sc["meter"]]
     p = sc.get("pickup", 0)
+    f = sc.get("factor", 1)
     objs = [{"k": "ts", "s": 0, "beats": m["ts"][0], "beat_type": m["ts"][1]}]
     last = max([n[2] + n[3] for n in sc["notes"]] + [p + 1])
     mno = 1
     if p:
-        objs.append({"k": "measure", "s": 0, "e": p, "number": 0})
+        objs.append({"k": "measure", "s": 0, "e": p * f, "number": 0})
     t = p
     while t < last:
-        objs.append({"k": "measure", "s": t, "e": t + m["mlen"], "number": mno})
+        objs.append({"k": "measure", "s": t * f, "e": (t + m["mlen"]) * f, "number": mno})
         mno += 1
         t += m["mlen"]
     for nid, kind, on, du, pitch, voice in sc["notes"]:
         step, octv = NAT[pitch]
         if kind == "g":
-            objs.append({"k": "grace", "s": on, "e": on, "id": nid, "step": step, "oct": octv, "voice": voice,
+            objs.append({"k": "grace", "s": on * f, "e": on * f, "id": nid, "step": step, "oct": octv, "voice": voice,
                          "gtype": "acciaccatura"})
         else:
-            objs.append({"k": "note", "s": on, "e": on + du, "id": nid, "step": step, "oct": octv, "voice": voice})
-    return {"id": "P1", "name": "c18", "divs": [[0, m["divs"]]], "objs": objs}
+            objs.append({"k": "note", "s": on * f, "e": (on + du) * f, "id": nid, "step": step, "oct": octv,
+                         "voice": voice})
+    return {"id": "P1", "name": "c18", "divs": [[0, m["divs"] * f]], "objs": objs}
 
 
 def build_part(sc):
@@ -66,9 +70,10 @@ def ref_score(sc):
     """id -> dict(onset_div, beat (Fraction), dur_beat (Fraction), pitch, grace)"""
     m = METERS[sc["meter"]]
     p = sc.get("pickup", 0)
+    f = sc.get("factor", 1)
     out = {}
     for nid, kind, on, du, pitch, voice in sc["notes"]:
-        out[nid] = dict(div=on, beat=F(on - p) * m["bpd"], dur=F(0) if kind == "g" else F(du) * m["bpd"],
+        out[nid] = dict(div=on * f, beat=F(on - p) * m["bpd"], dur=F(0) if kind == "g" else F(du) * m["bpd"],
                         pitch=pitch, grace=(kind == "g"), voice=voice)
     return out
 
@@ -145,6 +150,20 @@ def make_score(meter, pickup, comp, kinds, v2, grace):
             return None
         notes.append(["g0", "g", sounding[gi], 0, GRACE_PITCH[pi], 1])
     return {"meter": meter, "pickup": p, "notes": notes}
+
+
+def tile(sc, bars, factor=1):
+    """the score followed by one more copy of all its notes (pickup note included) for every entry b of `bars`,
+    b measures later; the ids of copy k (k = 2, 3, ...) get the suffix '_k'; `factor` = divisions per grid unit"""
+    m = METERS[sc["meter"]]
+    notes = [list(n) for n in sc["notes"]]
+    for k, b in enumerate(bars):
+        for n in sc["notes"]:
+            notes.append(["%s_%d" % (n[0], k + 2), n[1], n[2] + b * m["mlen"]] + list(n[3:]))
+    out = {"meter": sc["meter"], "pickup": sc.get("pickup", 0), "notes": notes}
+    if factor != 1:
+        out["factor"] = factor
+    return out
 
 
 def unique_onsets(sc, ids=None):
